@@ -3,6 +3,7 @@ package main
 // Discharging obligations: one SMT-LIB file per obligation, solver portfolio, parallel workers.
 
 import (
+	"hash/fnv"
 	"bytes"
 	"context"
 	"fmt"
@@ -31,7 +32,13 @@ func solvers(timeoutS int) []SolverCfg {
 var reBadName = regexp.MustCompile(`[^A-Za-z0-9_.#@:~-]+`)
 
 func (o *Obligation) fileName() string {
-	return reBadName.ReplaceAllString(o.Name, "_") + ".smt2"
+	n := reBadName.ReplaceAllString(strings.ReplaceAll(o.Name, modPath+"/", ""), "_")
+	if len(n) > 180 { // file-name limit: long generic instance names
+		h := fnv.New32a()
+		h.Write([]byte(o.Name))
+		n = fmt.Sprintf("%s~%08x", n[:170], h.Sum32())
+	}
+	return n + ".smt2"
 }
 
 func (o *Obligation) smt(prelude string, withModel bool) string {
